@@ -10,7 +10,8 @@ A *scenario* is a JSON-able dict describing one complete use of a miasm jitter:
      "log_mn": False,                       # jitter.jit.log_mn: executed-instruction trace, captured at fd level
      "exec_cb": False | True | "regs" | "retranslate",   # exec_cb hook: record jitter.pc (and get_gpreg()) at every
                                             # runiter_once / or call jit.clear_jitted_blocks() there (no event)
-     "step_limit": None | int,              # exec_cb stops the run ("step-limit") after that many runiter_once rounds
+     "step_limit": None | int,              # exec_cb stops a run ("step-limit") after that many runiter_once rounds
+                                            # (counted from the last init_run)
      "purge_disk_cache": False,             # empty $TMPDIR/miasm_cache first (gcc backend)
      "script": [op, ...]}
 
@@ -648,6 +649,7 @@ class Worker(object):
         self.j = jitter
         self.scn = scn
         self.events = []
+        self.steps = [0]
         self.cbs = {}
         self.hits = {}
         self.log_mn = bool(scn.get("log_mn"))
@@ -664,7 +666,7 @@ class Worker(object):
             retrans = scn.get("exec_cb") == "retranslate"
             quiet = not scn.get("exec_cb")
             limit = scn.get("step_limit")
-            steps = [0]
+            steps = self.steps = [0]         # reset by every init_run: the limit is per run
 
             def ecb(jj):
                 steps[0] += 1
@@ -751,10 +753,12 @@ class Worker(object):
             if j.breakpoints_handler.has_callbacks(op[1]):
                 j.remove_breakpoints_by_address(op[1])
         elif name == "init_run":
+            self.steps[0] = 0
             j.init_run(op[1])
         elif name == "cont":
             self.cont()
         elif name == "run":
+            self.steps[0] = 0
             j.init_run(op[1])
             self.cont()
         elif name == "set_mem":
